@@ -355,6 +355,33 @@ fn o_short_type(ty: &String, st: &mut Stats) -> Result<(), String> {
     Ok(())
 }
 
+/// Every Unicode scalar value that is not a hex digit, written as a digit of a digest (in four shapes, so
+/// that the digest has an even and an odd number of bytes and of characters): never accepted.
+fn scalar_digit(idx: u64) -> Option<SchemeScalar> {
+    let c = char::from_u32((idx / 4) as u32)?;
+    // (':' is not a wrong digit: it moves the boundary between algorithm and digest)
+    if c.is_ascii_hexdigit() || c == ',' || c == ':' {
+        return None;
+    }
+    let enc: String = c.to_string().bytes().map(|b| format!("%{b:02X}")).collect();
+    let value = match idx % 4 {
+        0 => format!("sha1:{enc}"),
+        1 => format!("sha1:0{enc}"),
+        2 => format!("sha1:{enc}{enc}"),
+        _ => format!("a:00,b:{enc}0{enc}0"),
+    };
+    Some(SchemeScalar { text: format!("pkg:npm/n?checksum={value}") })
+}
+
+fn o_scalar_digit(c: &SchemeScalar, st: &mut Stats) -> Result<(), String> {
+    refused_with::<IStr>(&c.text, "InvalidQualifier")?;
+    refused_with::<ISmall>(&c.text, "InvalidQualifier")?;
+    refused_with::<ITyped>(&c.text, "Parse(InvalidQualifier)")?;
+    st.class("checksum:every-scalar-as-digit");
+    st.nontrivial_enumerated(|| json!({ "string": c.text, "expected": "InvalidQualifier" }));
+    Ok(())
+}
+
 fn cells(kind: &str) -> Vec<&'static str> {
     match kind {
         "scheme" => vec!["scheme:prefix-removed", "scheme:colon-missing", "scheme:colon-replaced", "scheme:other-scheme", "scheme:char-before"],
@@ -456,6 +483,14 @@ pub fn sections() -> Vec<Box<dyn Section>> {
         make: Box::new(|_, i| scheme_scalar(i)),
         oracle: o_scheme_scalar,
         required: vec!["scheme:every-scalar"],
+        complete: true,
+    }));
+    v.push(Box::new(Enumerated {
+        name: "checksum-every-scalar-as-a-digit".into(),
+        total: Box::new(|_| 4 * 0x110000u64),
+        make: Box::new(|_, i| scalar_digit(i)),
+        oracle: o_scalar_digit,
+        required: vec!["checksum:every-scalar-as-digit"],
         complete: true,
     }));
     v.push(Box::new(Enumerated {
